@@ -754,26 +754,116 @@ Section IncBook.
   Qed.
 End IncBook.
 
+(* ------------------------------------------------------------------ the demanded set is closed *)
+
+(* evaluation only looks at the modules reachable from the one demanded *)
+Lemma eval_indep : forall G G' (A : name -> Prop),
+  (forall x, A x -> lookup G' x = lookup G x) ->
+  (forall x s y, A x -> lookup G x = Some s -> In y (imports s) -> A y) ->
+  forall f st x, A x -> eval G' f st x = eval G f st x.
+Proof.
+  intros G G' A Hsame Hclosed f. induction f as [|f IH]; intros st x Hx; [reflexivity|].
+  rewrite !eval_S. destruct (memb x st); [reflexivity|]. rewrite (Hsame x Hx).
+  destruct (lookup G x) as [s|] eqn:Es; [|reflexivity].
+  f_equal. apply map_ext_in. intros y Hy. apply IH. apply (Hclosed x s y Hx Es Hy).
+Qed.
+
+Section IncClosed.
+  Variable G : sources.
+  Variable rv : nat.
+
+  (* every import of an entry of the current revision is itself verified in the current revision,
+     or still in progress (on the stack) *)
+  Definition closed_except (st : list name) (mm : memo) : Prop :=
+    forall x en s y, get mm x = Some en -> e_rev en = rv -> lookup G x = Some s -> In y (imports s) ->
+                     at_rev rv mm y \/ In y st.
+
+  Lemma closed_except_weaken : forall st m mm, closed_except st mm -> closed_except (m :: st) mm.
+  Proof.
+    intros st m mm H x en s y Hg Hr Hs Hy. destruct (H x en s y Hg Hr Hs Hy) as [Ha|Hi]; [left; exact Ha|right; right; exact Hi].
+  Qed.
+
+  Lemma inc_closed : forall f mm st m mm' r ev,
+    NoDup st -> (forall x, In x st -> x < length G) -> length G + 1 <= f + length st ->
+    closed_except st mm ->
+    inc G rv f mm st m = (mm', r, ev) ->
+    closed_except st mm' /\ (at_rev rv mm' m \/ In m st).
+  Proof.
+    induction f as [|f IH]; intros mm st m mm' r ev Hnd Hb Hf Hc He.
+    - exfalso. pose proof (NoDup_bounded_length st (length G) Hnd Hb). unfold name in *. lia.
+    - rewrite inc_S in He. destruct (memb m st) eqn:Em.
+      + inversion He; subst mm' r ev. split; [exact Hc|right; apply memb_In; exact Em].
+      + assert (Hm : ~ In m st) by (apply memb_not_In; exact Em).
+        destruct (fresh_entry rv (get mm m)) as [r0|] eqn:Ef.
+        * inversion He; subst mm' r0 ev. split; [exact Hc|left].
+          destruct (fresh_entry_some rv mm m r Ef) as (en & Hget & Hrev & _). exists en. split; assumption.
+        * destruct (lookup G m) as [s|] eqn:Es.
+          -- destruct (inc_list (fun mm'0 x => inc G rv f mm'0 (m :: st) x) mm (imports s)) as [[mm1 rs] ev1] eqn:El.
+             inversion He; subst mm' r ev. clear He.
+             assert (Hlist : forall ms mm0 mm2 rs0 ev0,
+                        closed_except (m :: st) mm0 ->
+                        inc_list (fun mm'0 x => inc G rv f mm'0 (m :: st) x) mm0 ms = (mm2, rs0, ev0) ->
+                        closed_except (m :: st) mm2 /\
+                        (forall y, at_rev rv mm0 y -> at_rev rv mm2 y) /\
+                        (forall y, In y ms -> at_rev rv mm2 y \/ In y (m :: st))).
+             { induction ms as [|x xs IHxs]; intros mm0 mm2 rs0 ev0 Hc0 Hl; simpl in Hl.
+               - inversion Hl; subst. split; [exact Hc0|]. split; [auto|intros y []].
+               - destruct (inc G rv f mm0 (m :: st) x) as [[mma ra] eva] eqn:Ea.
+                 destruct (inc_list (fun mm'0 x0 => inc G rv f mm'0 (m :: st) x0) mma xs) as [[mmb rsb] evb] eqn:Eb.
+                 inversion Hl; subst mm2 rs0 ev0.
+                 destruct (IH mm0 (m :: st) x mma ra eva) as [Hca Hxa]; try exact Ea; try exact Hc0.
+                 + constructor; assumption.
+                 + intros y [Hy|Hy]; [subst y; apply (get_some_lt _ G m s Es)|apply Hb; exact Hy].
+                 + simpl. lia.
+                 + destruct (inc_book G rv _ _ _ _ _ _ _ Ea) as (Amono & _).
+                   destruct (IHxs mma mmb rsb evb Hca Eb) as (Hcb & Bmono & Hys).
+                   split; [exact Hcb|]. split.
+                   * intros y Hy. apply Bmono. apply Amono. exact Hy.
+                   * intros y [Hy|Hy].
+                     -- subst y. destruct Hxa as [Hxa|Hxa]; [left; apply Bmono; exact Hxa|right; exact Hxa].
+                     -- apply Hys. exact Hy. }
+             destruct (Hlist (imports s) mm mm1 rs ev1 (closed_except_weaken st m mm Hc) El) as (Hc1 & _ & Hys).
+             split; [|left; apply at_rev_set_same].
+             intros x en s0 y Hg Hr Hs0 Hy.
+             assert (Hcase : at_rev rv mm1 y \/ In y (m :: st)).
+             { destruct (Nat.eq_dec m x) as [E|Hne].
+               - subst x. unfold name in *. rewrite Es in Hs0. inversion Hs0; subst s0. apply Hys. exact Hy.
+               - rewrite get_set_other in Hg by exact Hne. apply (Hc1 x en s0 y Hg Hr Hs0 Hy). }
+             destruct Hcase as [Ha|[Hi|Hi]].
+             ++ left. apply at_rev_set_other. exact Ha.
+             ++ subst y. left. apply at_rev_set_same.
+             ++ right. exact Hi.
+          -- inversion He; subst mm' r ev. split; [|left; apply at_rev_set_same].
+             intros x en s0 y Hg Hr Hs0 Hy.
+             destruct (Nat.eq_dec m x) as [E|Hne].
+             ++ subst x. unfold name in *. rewrite Es in Hs0. discriminate.
+             ++ rewrite get_set_other in Hg by exact Hne.
+                destruct (Hc x en s0 y Hg Hr Hs0 Hy) as [Ha|Hi]; [left; apply at_rev_set_other; exact Ha|right; exact Hi].
+  Qed.
+End IncClosed.
+
 (* ------------------------------------------------------------------ engines and histories *)
 
 (* [dirty = false]: nothing has been verified in the current revision yet *)
 Definition inv (dirty : bool) (e : engine) : Prop :=
   good (srcs e) (revn e) (memt e) /\
   le_rev (revn e) (memt e) /\
+  closed_except (srcs e) (revn e) [] (memt e) /\
   (dirty = false -> forall m, ~ at_rev (revn e) (memt e) m).
 
 Lemma inv_empty : inv false empty_engine.
 Proof.
-  unfold inv, empty_engine; simpl. split; [|split].
+  unfold inv, empty_engine; simpl. split; [|split; [|split]].
   - intros m en H. rewrite get_nil in H. discriminate.
   - intros m en H. rewrite get_nil in H. discriminate.
+  - intros x en s y H. rewrite get_nil in H. discriminate.
   - intros _ m [en [H _]]. rewrite get_nil in H. discriminate.
 Qed.
 
 Lemma inc_eval_sound : forall dirty e m e' r ev, inv dirty e -> inc_eval e m = (e', r, ev) ->
   inv true e' /\ srcs e' = srcs e /\ revn e' = revn e /\ canon r = canon (fresh_eval (srcs e) m).
 Proof.
-  intros dirty e m e' r ev (Hg & Hl & _) He. unfold inc_eval in He.
+  intros dirty e m e' r ev (Hg & Hl & Hcl & _) He. unfold inc_eval in He.
   destruct (inc (srcs e) (revn e) (fuel_for (srcs e)) (memt e) [] m) as [[mm r0] ev0] eqn:Ei.
   inversion He; subst e' r ev. clear He. simpl.
   assert (Hs : good (srcs e) (revn e) mm /\ same_obs r0 (fresh_eval (srcs e) m)).
@@ -783,13 +873,18 @@ Proof.
     - intros x [].
     - unfold fuel_for. simpl. lia. }
   destruct Hs as [Hg' (_ & _ & Hc)].
+  assert (Hcl' : closed_except (srcs e) (revn e) [] mm).
+  { apply (inc_closed (srcs e) (revn e) (fuel_for (srcs e)) (memt e) [] m mm r0 ev0); try assumption.
+    - constructor.
+    - intros x [].
+    - unfold fuel_for. simpl. lia. }
   destruct (inc_book (srcs e) (revn e) _ _ _ _ _ _ _ Ei) as (_ & _ & _ & _ & Hl').
-  split; [|auto]. unfold inv; simpl. split; [exact Hg'|]. split; [apply Hl'; exact Hl|discriminate].
+  split; [|auto]. unfold inv; simpl. split; [exact Hg'|]. split; [apply Hl'; exact Hl|]. split; [exact Hcl'|discriminate].
 Qed.
 
-Lemma srcs_edit : forall b e m s, srcs (edit b e m s) = set_nth (srcs e) m s.
+Lemma srcs_edit : forall p e m s, srcs (edit p e m s) = set_nth (srcs e) m s.
 Proof.
-  intros b e m s. unfold edit. destruct (lookup (srcs e) m) as [old|] eqn:El; [|reflexivity].
+  intros p e m s. unfold edit. destruct (lookup (srcs e) m) as [old|] eqn:El; [|reflexivity].
   destruct (source_eqb old s) eqn:Eq; [|reflexivity].
   apply source_eqb_eq in Eq. subst old. symmetry. apply set_nth_same. exact El.
 Qed.
@@ -797,18 +892,51 @@ Qed.
 (* a new revision: nothing is verified yet, so the invariant holds for any sources *)
 Lemma inv_new_revision : forall G mm rv, le_rev rv mm -> inv false (mkEngine G (S rv) mm).
 Proof.
-  intros G mm rv Hl. unfold inv; simpl. split; [|split].
+  intros G mm rv Hl. unfold inv; simpl. split; [|split; [|split]].
   - intros m en Hg Hr. specialize (Hl m en Hg). lia.
   - intros m en Hg. specialize (Hl m en Hg). lia.
+  - intros x en s y Hg Hr. specialize (Hl x en Hg). lia.
   - intros _ m [en [Hg Hr]]. specialize (Hl m en Hg). lia.
 Qed.
 
-(* sources may change without a new revision only while nothing is verified in the revision *)
+(* sources may change without a new revision while nothing is verified in the revision *)
 Lemma inv_clean_sources : forall G G' mm rv, inv false (mkEngine G rv mm) -> inv false (mkEngine G' rv mm).
 Proof.
-  intros G G' mm rv (Hg & Hl & Hc). unfold inv in *; simpl in *. split; [|split].
+  intros G G' mm rv (Hg & Hl & Hcl & Hc). unfold inv in *; simpl in *. split; [|split; [|split]].
   - intros m en Hget Hr. exfalso. apply (Hc eq_refl m). exists en. split; assumption.
   - exact Hl.
+  - intros x en s y Hget Hr. exfalso. apply (Hc eq_refl x). exists en. split; assumption.
+  - exact Hc.
+Qed.
+
+Lemma length_set_nth_ge : forall (A : Type) (l : list (option A)) n a, length l <= length (set_nth l n a).
+Proof.
+  intros A l n. revert l. induction n as [|n IH]; intros l a; destruct l as [|x r]; simpl; try lia.
+  specialize (IH r a). lia.
+Qed.
+
+(* ... or when the module that gets its first source was never requested: nothing that is memoised
+   can have looked at it *)
+Lemma inv_add_unrequested : forall dirty G mm rv m s,
+  inv dirty (mkEngine G rv mm) -> get mm m = None -> inv dirty (mkEngine (set_nth G m s) rv mm).
+Proof.
+  intros dirty G mm rv m s (Hg & Hl & Hcl & Hc) Hnone. unfold inv in *; simpl in *.
+  assert (Hsame : forall x, at_rev rv mm x -> lookup (set_nth G m s) x = lookup G x).
+  { intros x [en [Hx _]]. unfold lookup. apply get_set_other. intro E. subst x. rewrite Hnone in Hx. discriminate. }
+  assert (Hclosed : forall x s0 y, at_rev rv mm x -> lookup G x = Some s0 -> In y (imports s0) -> at_rev rv mm y).
+  { intros x s0 y [en [Hx Hr]] Hs0 Hy. destruct (Hcl x en s0 y Hx Hr Hs0 Hy) as [Ha|[]]. exact Ha. }
+  split; [|split; [|split]].
+  - intros x en Hx Hr. destruct (Hg x en Hx Hr) as (H1 & _ & H3).
+    assert (Hax : at_rev rv mm x) by (exists en; split; assumption).
+    split; [exact H1|]. split; [apply fuel_enough|]. rewrite H3. unfold fresh_eval.
+    rewrite (eval_indep G (set_nth G m s) (at_rev rv mm) Hsame Hclosed _ [] x Hax).
+    apply eval_stack_same_obs; [exact I|apply (fuel_enough G x)|].
+    apply eval_fuel; [constructor|intros z []|].
+    unfold fuel_for. simpl. pose proof (length_set_nth_ge _ G m s). lia.
+  - exact Hl.
+  - intros x en s0 y Hx Hr Hs0 Hy.
+    assert (Hax : at_rev rv mm x) by (exists en; split; assumption).
+    rewrite (Hsame x Hax) in Hs0. apply (Hcl x en s0 y Hx Hr Hs0 Hy).
   - exact Hc.
 Qed.
 
@@ -841,60 +969,71 @@ Fixpoint latest (G : sources) (h : list op) : sources :=
 
 Definition outputs (o : list (result * list name)) : list cresult := map (fun x => canon (fst x)) o.
 
-Lemma edit_inv : forall b dirty e m s h,
-  inv dirty e -> (b = true \/ adds_when_clean dirty (srcs e) (Edit m s :: h)) ->
-  exists d', inv d' (edit b e m s) /\ (b = true \/ adds_when_clean d' (srcs (edit b e m s)) h).
+Lemma edit_inv : forall p dirty e m s h,
+  inv dirty e -> (p <> NewNever \/ adds_when_clean dirty (srcs e) (Edit m s :: h)) ->
+  exists d', inv d' (edit p e m s) /\ (p <> NewNever \/ adds_when_clean d' (srcs (edit p e m s)) h).
 Proof.
-  intros b dirty e m s h Hinv Hc. pose proof (srcs_edit b e m s) as Hs. destruct e as [G rv mm].
+  intros p dirty e m s h Hinv Hc. pose proof (srcs_edit p e m s) as Hs. destruct e as [G rv mm].
   unfold edit in *. simpl in *. destruct (lookup G m) as [old|] eqn:El.
   - destruct (source_eqb old s) eqn:Eq.
     + exists dirty. split; [exact Hinv|]. destruct Hc as [Hc|Hc]; [left; exact Hc|right; exact Hc].
     + exists false. split; [apply inv_new_revision; apply Hinv|].
       destruct Hc as [Hc|Hc]; [left; exact Hc|right; exact Hc].
-  - destruct b.
-    + exists false. split; [apply inv_new_revision; apply Hinv|left; reflexivity].
-    + destruct Hc as [Hc|[Hd Hc]]; [discriminate|]. subst dirty.
+  - destruct p; simpl.
+    + destruct Hc as [Hc|[Hd Hc]]; [congruence|]. subst dirty.
       exists false. split; [apply (inv_clean_sources G); exact Hinv|right; exact Hc].
+    + destruct (get mm m) as [en|] eqn:Eg.
+      * exists false. split; [apply inv_new_revision; apply Hinv|left; discriminate].
+      * exists dirty. split; [apply inv_add_unrequested; assumption|left; discriminate].
+    + exists false. split; [apply inv_new_revision; apply Hinv|left; discriminate].
 Qed.
 
-Lemma run_sound : forall b h dirty e,
-  inv dirty e -> (b = true \/ adds_when_clean dirty (srcs e) h) ->
-  outputs (snd (run b e h)) = fresh_outputs (srcs e) h /\
-  srcs (fst (run b e h)) = latest (srcs e) h /\
-  exists d', inv d' (fst (run b e h)).
+Lemma run_sound : forall p h dirty e,
+  inv dirty e -> (p <> NewNever \/ adds_when_clean dirty (srcs e) h) ->
+  outputs (snd (run p e h)) = fresh_outputs (srcs e) h /\
+  srcs (fst (run p e h)) = latest (srcs e) h /\
+  exists d', inv d' (fst (run p e h)).
 Proof.
-  intros b h. induction h as [|o h IH]; intros dirty e Hinv Hc.
+  intros p h. induction h as [|o h IH]; intros dirty e Hinv Hc.
   - simpl. split; [reflexivity|]. split; [reflexivity|]. exists dirty. exact Hinv.
   - destruct o as [m s|m].
-    + destruct (edit_inv b dirty e m s h Hinv Hc) as (d' & Hinv' & Hc').
-      simpl. rewrite <- (srcs_edit b e m s). apply (IH d' (edit b e m s) Hinv' Hc').
+    + destruct (edit_inv p dirty e m s h Hinv Hc) as (d' & Hinv' & Hc').
+      simpl. rewrite <- (srcs_edit p e m s). apply (IH d' (edit p e m s) Hinv' Hc').
     + simpl. destruct (inc_eval e m) as [[e1 r] ev] eqn:Ee.
       destruct (inc_eval_sound dirty e m e1 r ev Hinv Ee) as (Hinv1 & Hs1 & _ & Hr).
-      assert (Hc1 : b = true \/ adds_when_clean true (srcs e1) h).
+      assert (Hc1 : p <> NewNever \/ adds_when_clean true (srcs e1) h).
       { destruct Hc as [Hc|Hc]; [left; exact Hc|right]. rewrite Hs1. exact Hc. }
       destruct (IH true e1 Hinv1 Hc1) as (Ho & Hl & Hd).
-      destruct (run b e1 h) as [e2 out] eqn:Er. simpl in *.
+      destruct (run p e1 h) as [e2 out] eqn:Er. simpl in *.
       split; [|split].
       * unfold outputs in *. simpl. rewrite Hr, Ho, Hs1. reflexivity.
       * rewrite Hl, Hs1. reflexivity.
       * exact Hd.
 Qed.
 
-(* THE theorem: on every history the engine that starts a new revision at every source change answers
-   every evaluation exactly like a fresh VM that is given the sources as of that evaluation *)
+(* THE theorem: on every history the engine answers every evaluation exactly like a fresh VM that is
+   given the sources as of that evaluation — provided add_module starts a new revision whenever a
+   source changes and whenever a module that was requested before gets its first source *)
 Theorem inc_equals_fresh : forall h,
-  outputs (snd (run true empty_engine h)) = fresh_outputs [] h.
+  outputs (snd (run NewIfRequested empty_engine h)) = fresh_outputs [] h.
 Proof.
-  intros h. apply (run_sound true h false empty_engine inv_empty). left. reflexivity.
+  intros h. apply (run_sound NewIfRequested h false empty_engine inv_empty). left. discriminate.
+Qed.
+
+Theorem inc_equals_fresh_always : forall h,
+  outputs (snd (run NewAlways empty_engine h)) = fresh_outputs [] h.
+Proof.
+  intros h. apply (run_sound NewAlways h false empty_engine inv_empty). left. discriminate.
 Qed.
 
 (* the same, as a statement about one more query after an arbitrary history *)
 Theorem inc_equals_fresh_query : forall h m,
-  let e := fst (run true empty_engine h) in
+  let e := fst (run NewIfRequested empty_engine h) in
   canon (snd (fst (inc_eval e m))) = canon (fresh_eval (latest [] h) m).
 Proof.
   intros h m e.
-  destruct (run_sound true h false empty_engine inv_empty (or_introl eq_refl)) as (_ & Hl & d' & Hinv).
+  assert (Hp : NewIfRequested <> NewNever \/ adds_when_clean false (srcs empty_engine) h) by (left; discriminate).
+  destruct (run_sound NewIfRequested h false empty_engine inv_empty Hp) as (_ & Hl & d' & Hinv).
   fold e in Hl, Hinv. destruct (inc_eval e m) as [[e1 r] ev] eqn:Ee. simpl.
   destruct (inc_eval_sound d' e m e1 r ev Hinv Ee) as (_ & _ & _ & Hr). rewrite Hr, Hl. reflexivity.
 Qed.
@@ -903,17 +1042,17 @@ Qed.
    histories in which a module is only ever added while nothing is memoised in the current revision *)
 Theorem inc_equals_fresh_asis_partial : forall h,
   adds_when_clean false [] h ->
-  outputs (snd (run false empty_engine h)) = fresh_outputs [] h.
+  outputs (snd (run NewNever empty_engine h)) = fresh_outputs [] h.
 Proof.
-  intros h H. apply (run_sound false h false empty_engine inv_empty). right. exact H.
+  intros h H. apply (run_sound NewNever h false empty_engine inv_empty). right. exact H.
 Qed.
 
 Definition inc_equals_fresh_asis_full_stmt : Prop :=
-  forall h, outputs (snd (run false empty_engine h)) = fresh_outputs [] h.
+  forall h, outputs (snd (run NewNever empty_engine h)) = fresh_outputs [] h.
 
 (* ... and stale otherwise: import a module that does not exist yet, define it, import it again *)
 Theorem inc_equals_fresh_asis_refuted :
-  exists h, outputs (snd (run false empty_engine h)) <> fresh_outputs [] h.
+  exists h, outputs (snd (run NewNever empty_engine h)) <> fresh_outputs [] h.
 Proof.
   exists [Eval 0; Edit 0 (mkSource [] KInt 1%Z); Eval 0]. vm_compute. discriminate.
 Qed.
@@ -954,5 +1093,116 @@ Proof.
 Qed.
 
 (* the bodies run by [run] between two source changes: the concatenation over a block of evaluations *)
-Theorem eval_once_history : forall b h ms, NoDup (snd (queries (fst (run b empty_engine h)) ms)).
+Theorem eval_once_history : forall p h ms, NoDup (snd (queries (fst (run p empty_engine h)) ms)).
 Proof. intros. apply eval_once. Qed.
+
+(* ------------------------------------------------------------------ how a cycle is named *)
+
+Definition runs (exec : name -> bool) (ms : list name) : list name :=
+  flat_map (fun m => (if exec m then [m] else []) ++ [m]) ms.
+
+Lemma names_import_or_global : forall exec ms,
+  map key_name (filter is_import_or_global (flat_map (frame exec) ms)) = runs exec ms.
+Proof.
+  intros exec ms. induction ms as [|m ms IH]; simpl; [reflexivity|].
+  unfold frame at 1. destruct (exec m); simpl; rewrite IH; reflexivity.
+Qed.
+
+Lemma names_import : forall exec ms,
+  map key_name (filter is_import (flat_map (frame exec) ms)) = filter exec ms.
+Proof.
+  intros exec ms. induction ms as [|m ms IH]; simpl; [reflexivity|].
+  unfold frame at 1. destruct (exec m); simpl; rewrite IH; reflexivity.
+Qed.
+
+Lemma filter_app_list : forall (A : Type) (f : A -> bool) l1 l2, filter f (l1 ++ l2) = filter f l1 ++ filter f l2.
+Proof. intros A f l1 l2. induction l1 as [|a l IH]; simpl; [reflexivity|]. destruct (f a); simpl; rewrite IH; reflexivity. Qed.
+
+Lemma runs_head : forall exec r rs z, exists Y, runs exec (r :: rs) ++ [z] = r :: Y.
+Proof. intros exec r rs z. unfold runs. simpl. destruct (exec r); simpl; eexists; reflexivity. Qed.
+
+Lemma dedup_adj_cons_ne : forall a b Y, a <> b -> dedup_adj (a :: b :: Y) = a :: dedup_adj (b :: Y).
+Proof. intros a b Y H. simpl. destruct (Nat.eqb a b) eqn:E; [apply Nat.eqb_eq in E; contradiction|reflexivity]. Qed.
+
+Lemma dedup_adj_cons_eq : forall a Y, dedup_adj (a :: a :: Y) = dedup_adj (a :: Y).
+Proof. intros a Y. simpl. rewrite Nat.eqb_refl. reflexivity. Qed.
+
+Lemma dedup_runs : forall exec rs r z, NoDup (r :: rs) -> ~ In z (r :: rs) ->
+  dedup_adj (runs exec (r :: rs) ++ [z]) = (r :: rs) ++ [z].
+Proof.
+  intros exec rs. induction rs as [|r' rs IH]; intros r z Hnd Hz.
+  - assert (Hrz : r <> z) by (intro E; apply Hz; left; exact E).
+    unfold runs. simpl. destruct (exec r); simpl.
+    + rewrite Nat.eqb_refl. destruct (Nat.eqb r z) eqn:E; [apply Nat.eqb_eq in E; contradiction|reflexivity].
+    + destruct (Nat.eqb r z) eqn:E; [apply Nat.eqb_eq in E; contradiction|reflexivity].
+  - inversion Hnd as [|? ? Hnotin Hnd']; subst.
+    assert (Hne : r <> r') by (intro E; apply Hnotin; left; symmetry; exact E).
+    assert (Hz' : ~ In z (r' :: rs)) by (intro H; apply Hz; right; exact H).
+    destruct (runs_head exec r' rs z) as [Y HY].
+    assert (Hstep : dedup_adj (r :: runs exec (r' :: rs) ++ [z]) = r :: (r' :: rs) ++ [z]).
+    { rewrite HY. rewrite dedup_adj_cons_ne by exact Hne. rewrite <- HY. rewrite (IH r' z Hnd' Hz'). reflexivity. }
+    change (runs exec (r :: r' :: rs)) with (((if exec r then [r] else []) ++ [r]) ++ runs exec (r' :: rs)).
+    destruct (exec r); simpl app.
+    + rewrite dedup_adj_cons_eq. exact Hstep.
+    + exact Hstep.
+Qed.
+
+Lemma last_snoc : forall (A : Type) (l : list A) z d, last (l ++ [z]) d = z.
+Proof. intros A l z d. induction l as [|a l IH]; simpl; [reflexivity|]. destruct (l ++ [z]) eqn:E; [destruct l; discriminate|exact IH]. Qed.
+
+Lemma drop_closing : forall m1 r rs,
+  match m1 :: (r :: rs) ++ [m1] with
+  | a :: _ :: _ => if Nat.eqb a (last (m1 :: (r :: rs) ++ [m1]) a) then removelast (m1 :: (r :: rs) ++ [m1]) else m1 :: (r :: rs) ++ [m1]
+  | _ => m1 :: (r :: rs) ++ [m1]
+  end = m1 :: r :: rs.
+Proof.
+  intros m1 r rs. cbv beta iota. change ((r :: rs) ++ [m1]) with (r :: (rs ++ [m1])). cbv beta iota.
+  change (m1 :: r :: rs ++ [m1]) with ((m1 :: r :: rs) ++ [m1]).
+  rewrite last_snoc, Nat.eqb_refl. apply removelast_last.
+Qed.
+
+(* the repaired report names exactly the cycle, whichever import queries were re-validated *)
+Theorem report_fixed_chain : forall exec c, NoDup c -> c <> [] -> report_fixed (cycle_keys exec c) = c.
+Proof.
+  intros exec c Hnd Hne. destruct c as [|m1 rest]; [congruence|]. clear Hne.
+  unfold report_fixed, cycle_keys. cbn [filter is_import_or_global map key_name].
+  rewrite filter_app_list, map_app, names_import_or_global. cbn [filter is_import_or_global map key_name].
+  inversion Hnd as [|? ? Hnotin Hnd']; subst.
+  destruct rest as [|r rs].
+  - simpl. rewrite Nat.eqb_refl. reflexivity.
+  - assert (Hne : m1 <> r) by (intro E; apply Hnotin; left; symmetry; exact E).
+    rewrite dedup_adj_cons_eq.
+    destruct (runs_head exec r rs m1) as [Y HY]. rewrite HY.
+    rewrite dedup_adj_cons_ne by exact Hne. rewrite <- HY.
+    rewrite (dedup_runs exec rs r m1 Hnd' Hnotin).
+    apply drop_closing.
+Qed.
+
+(* what the code as it stands prints: the re-validated members are missing *)
+Theorem report_asis_chain : forall exec m1 rest,
+  report_asis (cycle_keys exec (m1 :: rest)) = m1 :: filter exec rest.
+Proof.
+  intros exec m1 rest. unfold report_asis, cycle_keys. cbn [filter is_import map key_name].
+  rewrite filter_app_list, map_app, names_import. cbn [filter is_import map key_name].
+  change (m1 :: filter exec rest ++ [m1]) with ((m1 :: filter exec rest) ++ [m1]).
+  apply removelast_last.
+Qed.
+
+Theorem report_asis_partial : forall exec m1 rest,
+  (forall m, In m rest -> exec m = true) -> report_asis (cycle_keys exec (m1 :: rest)) = m1 :: rest.
+Proof.
+  intros exec m1 rest H. rewrite report_asis_chain. f_equal.
+  induction rest as [|r rs IH]; simpl; [reflexivity|].
+  rewrite (H r (or_introl eq_refl)). f_equal. apply IH. intros m Hm. apply H. right. exact Hm.
+Qed.
+
+Definition report_asis_full_stmt : Prop :=
+  forall exec c, NoDup c -> c <> [] -> report_asis (cycle_keys exec c) = c.
+
+Theorem report_asis_refuted : exists exec c, NoDup c /\ c <> [] /\ report_asis (cycle_keys exec c) <> c.
+Proof.
+  exists (fun _ => false), [1; 2]. split; [|split].
+  - constructor; [intros [H|[]]; discriminate|constructor; [intros []|constructor]].
+  - discriminate.
+  - vm_compute. discriminate.
+Qed.
